@@ -180,6 +180,10 @@ def exec_adaptive(sc):
     mean0 = onp.asarray(sol.u.mean[0], dtype=float).reshape(len(ts), -1) if ts.shape[0] > 1 or onp.asarray(sol.u.mean[0]).ndim > 1 else onp.asarray(sol.u.mean[0], dtype=float).reshape(1, -1)
     acc = r.accepted
     ratios = [acc[i][1] / acc[i - 1][1] for i in range(1, len(acc))]
+    # the stress class: an accepted step below TINY of its predecessor -- or, at high order, below (1e-6)^(1/q) of it (the
+    # recursion amplifies by (1/ratio)^q: a ratio of 0.066 at q = 6 already degrades a fixed-point smoother run until it
+    # overflows; observed in the fourth thorough pass)
+    tiny_thr = max(TINY, 1e-6 ** (1.0 / q))
     worst = 0.0
     for i, t in enumerate(ts):
         finite = bool(onp.isfinite(t) and onp.all(onp.isfinite(mean0[i])))
@@ -196,7 +200,7 @@ def exec_adaptive(sc):
             if cfg["calib"] == "dynamic" and zero_scale:
                 v["finding"] = "KF-C01-dynamic-zero-residual"
                 v["inv"] = "TOL-finite-dynamic-zero-residual"
-            elif bool(ratios) and min(ratios) < TINY and (cfg["lin"] == "ts0" or cfg["strategy"] != "filter" or min(ratios) < 1e-5):
+            elif bool(ratios) and min(ratios) < tiny_thr and (cfg["lin"] == "ts0" or cfg["strategy"] != "filter" or min(ratios) < 1e-5):
                 # the tiny-step finding in its extreme form: after an accepted step 1e-7 of its predecessor (clipped
                 # remainder in front of a checkpoint) the run degrades until it overflows (q = 6 observed)
                 v["finding"] = "KF-C01-tiny-step"
@@ -208,8 +212,8 @@ def exec_adaptive(sc):
             # finding predicate: an accepted step much smaller than its predecessor (tiny clipped remainder or
             # post-burst step) -- before the failing output for filters with zeroth-order linearisation, anywhere
             # in the history for smoothers (the backward pass carries it to earlier outputs)
-            tiny_before = [i2 for i2, (tt, hh) in enumerate(acc[1:], start=1) if ratios[i2 - 1] < TINY and tt <= t + eps]
-            tiny_any = bool(ratios) and min(ratios) < TINY
+            tiny_before = [i2 for i2, (tt, hh) in enumerate(acc[1:], start=1) if ratios[i2 - 1] < tiny_thr and tt <= t + eps]
+            tiny_any = bool(ratios) and min(ratios) < tiny_thr
             v = {"inv": "TOL", "msg": f"error at t={t:.6g} is {ratio:.1f} x (atol + rtol|u|) (atol={sc['atol']:.1e}, rtol={sc['rtol']:.1e}; {len(acc)} steps, min step ratio {min(ratios) if ratios else 1:.1e})"}
             extreme_before = [i2 for i2 in tiny_before if ratios[i2 - 1] < 1e-5]
             if (cfg["lin"] == "ts0" and tiny_before) or (cfg["strategy"] != "filter" and tiny_any) or extreme_before:
